@@ -252,6 +252,23 @@ func copyResidues(residues []uint8) []uint8 {
 	return c
 }
 
+// unphased is the result for a sequence that aligns with no reference at all
+// (no alignment has a positive score in any phase): the sequence is given back
+// untouched, from position 0, and flagged as removed.
+func (p *phaser) unphased(seq Sequence) (ph PhasedSequence, err error) {
+	ph = PhasedSequence{
+		Err:      nil,
+		Removed:  true,
+		Position: 0,
+		NtSeq:    NewSequence(seq.Name(), copyResidues(seq.SequenceChar()), seq.Comment()),
+		CodonSeq: NewSequence(seq.Name(), copyResidues(seq.SequenceChar()), seq.Comment()),
+		AaSeq:    NewSequence(seq.Name(), copyResidues(seq.SequenceChar()), seq.Comment()),
+		Ali:      nil,
+	}
+	ph.AaSeq, err = ph.AaSeq.Translate(0, p.geneticcode)
+	return
+}
+
 func (p *phaser) alignAgainstRefsAA(seq Sequence, orfsaa []Sequence) (ph PhasedSequence, err error) {
 	var bestscore float64 = .0
 	var bestratematches, bestlen float64 = .0, .0
@@ -324,6 +341,10 @@ func (p *phaser) alignAgainstRefsAA(seq Sequence, orfsaa []Sequence) (ph PhasedS
 				}
 			}
 		}
+	}
+
+	if bestseq == nil {
+		return p.unphased(seq)
 	}
 
 	ph = PhasedSequence{
@@ -416,6 +437,10 @@ func (p *phaser) alignAgainstRefsNT(seq Sequence, orfs []Sequence) (ph PhasedSeq
 				}
 			}
 		}
+	}
+
+	if bestseq == nil {
+		return p.unphased(seq)
 	}
 
 	phase = (3 - nbgapstart%3) % 3
